@@ -82,7 +82,7 @@ PROPS = {
     'C02': _p(160, 4000, [1, 2, 3, 9, 10]),
     'C03': _p(160, 4000, [2, 3, 6, 7, 9, 10]),
     'C04': _p(160, 4000, [2, 3, 5, 10]),
-    'C05': _p(160, 4000, [1, 3, 10]),
+    'C05': _p(160, 4000, [1, 3, 10], race=True, race_n=600),
     'C16': _p(160, 4000, [4, 5, 10]),
     'C17': _p(64, 1500, [7, 10]),
     'C18': _p(96, 1500, [8, 10]),
